@@ -418,6 +418,7 @@ func (self *Metadata) uniquify() error {
 			}
 		}
 	}
+	verifEvent("Uniquify", "md", self.path, "fq", self.fqname, "final", self.finalPath)
 	return nil
 }
 
@@ -435,6 +436,7 @@ func (self *Metadata) removeAll(includeMeta bool) error {
 	}
 	self.notRunningSince = time.Time{}
 	self.lastRefresh = time.Time{}
+	verifEvent("MdRemoveAll", "md", self.path, "fq", self.fqname, "files", self.curFilesPath)
 	if err := os.RemoveAll(self.curFilesPath); err != nil {
 		return err
 	}
@@ -504,6 +506,7 @@ func (self *Metadata) _cacheNoLock(name MetadataFileName) {
 func (self *Metadata) cache(name MetadataFileName, uniquifier string) {
 	self.mutex.Lock()
 	defer self.mutex.Unlock()
+	verifEvent("MdCache", "md", self.path, "fq", self.fqname, "name", string(name), "got", uniquifier, "want", self.uniquifier)
 	if self.uniquifier == uniquifier {
 		self._cacheNoLock(name)
 	} else if self.uniquifier != "" {
@@ -685,6 +688,7 @@ func (self *Metadata) ReadInto(name MetadataFileName, target interface{}) error 
 
 func (self *Metadata) _writeRawNoLock(name MetadataFileName, text string) error {
 	err := os.WriteFile(self.MetadataFilePath(name), []byte(text), 0644)
+	verifMd(self, "MdWrite", name)
 	self._cacheNoLock(name)
 	if err != nil {
 		msg := fmt.Sprintf("Could not write %s for %s: %s", name, self.fqname, err.Error())
@@ -704,6 +708,7 @@ func (self *Metadata) WriteRaw(name MetadataFileName, text string) error {
 // Writes the given raw data into the given metadata file.
 func (self *Metadata) WriteRawBytes(name MetadataFileName, text []byte) error {
 	err := os.WriteFile(self.MetadataFilePath(name), text, 0644)
+	verifMd(self, "MdWrite", name)
 	self.cache(name, self.uniquifier)
 	if err != nil {
 		msg := fmt.Sprintf("Could not write %s for %s: %s", name, self.fqname, err.Error())
@@ -730,6 +735,7 @@ func (self *Metadata) appendRaw(name MetadataFileName, text string) error {
 		f.Close()
 		return err
 	} else {
+		verifMd(self, "MdWrite", name)
 		return f.Close()
 	}
 }
@@ -771,6 +777,7 @@ func (self *Metadata) WriteAtomic(name MetadataFileName, object interface{}) err
 		return err
 	}
 	fname := self.MetadataFilePath(name)
+	defer verifMd(self, "MdWrite", name)
 	return writeAtomic(fname, bytes)
 }
 
@@ -788,12 +795,14 @@ func (self *Metadata) UpdateJournal(name MetadataFileName) error {
 		[]byte(util.Timestamp()), 0644); err != nil && !os.IsExist(err) {
 		return err
 	}
+	verifEvent("JournalWrite", "file", fname)
 	return nil
 }
 
 func (self *Metadata) remove(name MetadataFileName) error {
 	self.uncache(name)
 	err := os.Remove(self.MetadataFilePath(name))
+	verifMd(self, "MdRemove", name)
 	if os.IsNotExist(err) {
 		// Workaround for an issue one heavily loaded NFS servers.  If a request
 		// is taking a long time, the client will re-send the request.  The
@@ -808,6 +817,7 @@ func (self *Metadata) remove(name MetadataFileName) error {
 func (self *Metadata) _removeNoLock(name MetadataFileName) error {
 	self._uncacheNoLock(name)
 	err := os.Remove(self.MetadataFilePath(name))
+	verifMd(self, "MdRemove", name)
 	if os.IsNotExist(err) {
 		return nil
 	}
@@ -933,6 +943,7 @@ func (self *Metadata) journalFile() string {
 }
 
 func (self *Metadata) uncheckedReset() error {
+	verifEvent("MdReset", "md", self.path, "fq", self.fqname, "final", self.finalPath)
 	// Remove all related files from journal directory.
 	if len(self.journalPath) > 0 {
 		dir, base := filepath.Split(self.journalFile())
